@@ -19,6 +19,7 @@ class Emitter:
         lw.access_sites = []
         lw.node_by_id = {}
         self.contracts = contracts or {}
+        self.twins = {}
         self.done = {}       # cname -> list of lines
         self.protos = {}
         self.order = []
@@ -97,10 +98,17 @@ class Emitter:
         file_ = b.get('file') or b.get('includedFrom', {}).get('file')
         lines.append('/* %s  [%s] */' % (f.qual, f.sig))
         lines.append('%s %s' % (crt, sig))
-        for key in ('requires', 'assigns', 'frees', 'ensures'):
+        for key in ('requires_local', 'requires', 'assigns', 'frees', 'ensures'):
             for c in con.get(key, []):
-                lines.append('__CPROVER_%s(%s)' % (key, c))
+                lines.append('__CPROVER_%s(%s)' % ('requires' if key == 'requires_local' else key, c))
         lines += ['{'] + ind(body) + ['}', '']
+        if f.cname in lw.cfg.get('rec_twin', []):
+            # the contract that stands in for (mutually) recursive calls: same clauses without the local shape
+            tw = ['%s %s' % (crt, sig.replace(f.cname + '(', f.cname + '__rec(', 1))]
+            for key in ('requires', 'assigns', 'frees', 'ensures'):
+                for c in con.get(key, []):
+                    tw.append('__CPROVER_%s(%s)' % (key, c))
+            self.twins[f.cname] = '\n'.join(tw) + ';'
         unused = set(k for k in con.get('loops', {}) if isinstance(k, int)) - ctx.used_loops
         if unused:
             raise LowerError('%s: loop contract for non-existent loop ordinal(s) %s' % (f.cname, sorted(unused)))
@@ -175,6 +183,7 @@ class Emitter:
                     continue
                 work.append(f)
         seen = set()
+        self.called_from = {}
         while work or lw.lambda_fns:
             if lw.lambda_fns:
                 fn, sub = lw.lambda_fns.pop(0)
@@ -184,6 +193,7 @@ class Emitter:
                         g = lw.func_by_cname.get(c)
                         if g is not None and g.cname not in self.done:
                             work.append(g)
+                            self.called_from.setdefault(g.cname, fn.cname)
                 continue
             f = work.pop()
             if f.cname in self.done:
@@ -214,12 +224,13 @@ class Emitter:
                     self.protos[f.cname] = '%s %s;' % (crt, sig)
                     lw.warnings.append('no body for defaulted/implicit %s' % f.cname)
                     continue
-                raise LowerError('reachable function %s (%s) has no body in the AST' % (f.qual, f.cname))
+                raise LowerError('reachable function %s (%s) has no body in the AST (first called from %s)' % (f.qual, f.cname, self.called_from.get(f.cname, 'a root')))
             ctx = self.lower_func(f)
             for c in ctx.calls:
                 g = lw.func_by_cname.get(c)
                 if g is not None and g.cname not in self.done:
                     work.append(g)
+                    self.called_from.setdefault(g.cname, f.cname)
 
     # ---------------------------------------------------------------- records / enums / globals
     def check_closures(self):
@@ -392,6 +403,9 @@ class Emitter:
         out += self.emit_globals()
         for c in sorted(self.protos):
             out.append(self.protos[c])
+        for c in sorted(self.twins):
+            out.append('/* contract standing in for recursive calls of %s */' % c)
+            out.append(self.twins[c])
         out.append('')
         for c in self.order:
             out += self.done[c]
